@@ -67,6 +67,8 @@ def _eval_alphabet(T, dt):
     # just inside the window within which the grid treats two times as one (1e-10 of the duration): next to a grid point, next to time 0
     g1 = dt / T if dt < T else g
     vals += [g1 + 5e-11, 5e-11]
+    # chains around a grid point whose links are shorter than the merge window while the ends are further apart than it
+    vals += [g1 - 1.4e-10, g1 - 0.7e-10, g1 + 0.7e-10]
     out = []
     for v in vals:
         if 0.0 <= v <= 1.0 and v not in out:
@@ -119,8 +121,10 @@ def _check_grid(seq, T_expected, dt, ev, mod, config_cls, obs_cls, all_default=F
         if i * dt <= T and np.abs(arr - i * dt).min() > 1e-9 * T:
             return f"{tag}: multiple {i}*dt = {i * dt} missing from the grid"
     for e in ev:
-        if np.abs(arr - e * T).min() > 1e-9 * T:
-            return f"{tag}: evaluation time {e!r} (t={e * T}) missing from the grid"
+        # "contains": within the tolerance with which the backends match a step end to a requested time (1e-10 of the duration) - a requested
+        # time further than that from every grid time is never reported
+        if np.abs(arr - e * T).min() > 1e-10 * T * (1 + 1e-6):
+            return f"{tag}: evaluation time {e!r} (t={e * T}) missing from the grid (nearest grid time {arr[np.abs(arr - e * T).argmin()]!r})"
     sds = list(pd.get_sequences())
     if len(sds) != 1:
         return f"{tag}: {len(sds)} trajectories for a noiseless run"
